@@ -15,7 +15,7 @@ FIXED_WIDTH = {"YYYY": 4, "0Y": 2, "GGGG": 4, "0G": 2, "Q": 1, "0M": 2, "0D": 2,
 ALPHA_PARTS = {"TAG", "PYTAG"}
 TAGS = ["alpha", "beta", "dev", "rc", "post", "final"]
 ZEROABLE = {"MAJOR", "MINOR", "PATCH", "TAG", "PYTAG", "NUM", "INC0"}
-SEPS = [".", ".", ".", "-", "_", "w", "q", "+", "#", "/", " ", ":", "~", "rel", "x."]
+SEPS = [".", ".", ".", "-", "_", "w", "q", "+", "#", "/", ":", "~", "rel", "x."]
 
 
 def cal_combo(rng):
@@ -98,7 +98,7 @@ def gen_pattern(rng, wf=True):
     """a version pattern of the documented grammar. wf=True: uniquely readable (boundary conditions
     respected, each field at most once, lower-case literal text, brackets only as groups or escaped)."""
     for _ in range(100):
-        prefix = rng.choice(["", "", "v", "v", "ver-", "r", "release_", "\\[x\\]", "(", "{", "*"]) if rng.random() < 0.6 else ""
+        prefix = rng.choice(["", "", "v", "v", "ver-", "r", "release_", "\\[x\\]", "(", "*", "+"]) if rng.random() < 0.6 else ""
         cal = cal_combo(rng)
         num = num_combo(rng)
         parts = cal + num
@@ -118,7 +118,7 @@ def gen_pattern(rng, wf=True):
             if sep_start < idx:
                 body = body[:sep_start] + "[" + body[sep_start:] + tail + "]"
                 tail = ""
-        suffix = rng.choice(["", "", "", ")", "}", "!", "-x", "\\]"]) if rng.random() < 0.3 else ""
+        suffix = rng.choice(["", "", "", ")", "!", "-x", "\\]"]) if rng.random() < 0.3 else ""
         pat = prefix + body + tail + suffix
         if wf and not is_wf(pat):
             continue
